@@ -59,6 +59,7 @@ func wireBorn(r wm.Rec) (dns.RR, error) {
 type pairCase struct {
 	A, B, C wm.Rec
 	How     string // how B was derived from A (for the evidence)
+	Spell   uint64 `json:",omitempty"` // how the program-built twins are written (wm.Spelling); 0: derived from the octets of the case
 }
 
 // sameLayout lists type codes that share one RDATA layout.
@@ -420,6 +421,12 @@ func comparePair(c pairCase, live func(string) bool, quiet bool) error {
 			return pbt.Errf("a hand-built %s record is not a duplicate of its own copy: %s", typeName(recs[i].Type), raw[i])
 		}
 	}
+	// ... values as a program holds them (names in any legal spelling, IPv4 addresses in the 16-octet
+	// form of net.IPv4 / net.ParseIP): a record and its copy, and the laws below
+	built, err := builtTwins(c, recs, cons, quiet)
+	if err != nil {
+		return err
+	}
 	// ... and a name written without its final dot is not the name written with it (a relative
 	// name is another name, or none; the comparison may ignore letter case and nothing else)
 	for i := range cons {
@@ -454,7 +461,7 @@ func comparePair(c pairCase, live func(string) bool, quiet bool) error {
 			}
 		}
 	}
-	return lawsHold(append(append(append([]dns.RR{}, rrs...), cons...), raw...))
+	return lawsHold(append(append(append(append([]dns.RR{}, rrs...), cons...), raw...), built...))
 }
 
 // lawsHold: reflexive, symmetric, transitive on the given records (every ordered pair is asked once).
@@ -592,7 +599,11 @@ func derive(t *rapid.T, a wm.Rec) (wm.Rec, string) {
 	case 0:
 		return b, "identical"
 	case 1:
-		b.TTL ^= uint32(rapid.Uint32Range(1, 1<<31).Draw(t, "ttl"))
+		if rapid.Bool().Draw(t, "ttlbit") {
+			b.TTL ^= 1 << uint(rapid.IntRange(0, 31).Draw(t, "ttlbitno"))
+		} else {
+			b.TTL ^= uint32(rapid.Uint32Range(1, 1<<32-1).Draw(t, "ttl"))
+		}
 		return b, "ttl-changed"
 	case 2:
 		b.Name = gen.FlipCase(t, b.Name)
@@ -606,7 +617,16 @@ func derive(t *rapid.T, a wm.Rec) (wm.Rec, string) {
 		}
 		return b, "rdata-name-case"
 	case 4:
-		b.Class ^= uint16(rapid.IntRange(1, 255).Draw(t, "classdelta"))
+		// the class is a 16-bit number, every bit of it counts: exactly one bit (any of the 16), a small
+		// difference, any difference
+		switch rapid.IntRange(0, 2).Draw(t, "classhow") {
+		case 0:
+			b.Class ^= 1 << uint(rapid.IntRange(0, 15).Draw(t, "classbit"))
+		case 1:
+			b.Class ^= uint16(rapid.IntRange(1, 255).Draw(t, "classdelta"))
+		default:
+			b.Class ^= uint16(rapid.IntRange(1, 65535).Draw(t, "classdelta"))
+		}
 		return b, "class-changed"
 	case 5:
 		for _, g := range sameLayout {
@@ -641,6 +661,13 @@ func derive(t *rapid.T, a wm.Rec) (wm.Rec, string) {
 }
 
 func genPair(t *rapid.T) pairCase {
+	c := genPair0(t)
+	// how the program-built twins of the three records are written (built_test.go)
+	c.Spell = rapid.Uint64Range(1, 1<<62).Draw(t, "spell")
+	return c
+}
+
+func genPair0(t *rapid.T) pairCase {
 	o := &gen.Opts{Types: dupTypes(), Unknown: true, NoRdata: true, NameGen: func(t *rapid.T) wm.Name { return gen.Name(t, gen.NameOpts{MaxLabs: 3, MaxLabel: 6}) }}
 	if rapid.IntRange(0, 7).Draw(t, "lenient") == 0 {
 		return genLenient(t, o) // one field value spelled another way on the wire (lenient_test.go)
